@@ -164,16 +164,34 @@ func ctxFor(r *Rng, docs []DocSpec, d int) int {
 func GenC04(seed, run uint64, ok CompileOK) *Scenario {
 	r := NewRng(seed, HashString("C04"), run)
 	s := &Scenario{Prop: "C04", Mode: "H", Seed: seed, Run: run, Cfg: baseCfg(r)}
-	s.Docs = genDocs(r, r.Range(4, 26))
+	focus := ""
+	if r.Chance(1, 4) {
+		focus = r.Pick(FocusFuncs) // swarm: a run about one function fed context-dependent arguments
+	}
+	if focus != "" && r.Chance(2, 3) {
+		// its documents use the tight value alphabet, so that the arguments the
+		// function sees on different context nodes collide and concatenate into each other
+		saved := Values
+		Values = TightValues
+		s.Docs = genDocs(r, r.Range(4, 26))
+		Values = saved
+		if r.Chance(2, 3) {
+			s.Docs[0] = GenTableDoc(r) // regular rows: the function sees colliding argument tuples back to back
+		}
+	} else {
+		s.Docs = genDocs(r, r.Range(4, 26))
+	}
 	g := NewGen(r)
 	g.UseDocs(s.Docs)
 	g.StackPos = true
-	if r.Chance(1, 4) {
-		g.FocusFn = r.Pick(FocusFuncs) // swarm: a run about one function fed context-dependent arguments
-	}
+	g.FocusFn = focus
 	s.Exprs = genExprs(g, r.Range(1, 5), ok, func() (*E, bool, bool) { return g.Top(), false, false })
 	nsteps := r.Range(6, 60)
 	w := []int{r.Range(2, 8), r.Range(2, 10), r.Range(4, 14), r.Range(0, 3), r.Range(1, 5), 0, 0}
+	if focus != "" {
+		w[1] += 10 // many Evaluate calls from many context nodes
+		w[4] += 4
+	}
 	if s.Cfg.Faults {
 		w[5] = r.Range(0, 3) // crash
 		w[6] = r.Range(0, 1) // swap cache
